@@ -553,6 +553,14 @@ pub fn common_raw_oracles(case: &RawCase, rr: &RawRun, an: &Analysed, out: &mut 
     if rr.run.end == RunEnd::Budget {
         out.label("step-budget-hit");
     }
+    // a program that is stuck at quiescence and completes as soon as every task is polled once more was not woken by
+    // the library (whatever the scripted peer still owes it, a re-poll cannot supply)
+    if rr.run.end == RunEnd::Quiescent && rr.run.panic.is_none() && rr.run.completed_when_repolled == Some(true) {
+        let mut kinds: Vec<String> = rr.run.unfinished.iter().filter(|(_, g)| matches!(g, Group::ClientApp | Group::ServerApp)).map(|(n, _)| strip_digits(n)).collect();
+        kinds.sort();
+        kinds.dedup();
+        out.fail("C06", "lost-wakeup", format!("C06/lost-wakeup/raw/{}", kinds.join("+")), format!("nothing runnable, nothing in flight, yet tasks {:?} are pending — and they complete once every task is polled again: a wake-up was lost", rr.run.unfinished.iter().filter(|(_, g)| matches!(g, Group::ClientApp | Group::ServerApp)).map(|(n, _)| n.clone()).collect::<Vec<_>>()));
+    }
 }
 
 pub fn check_c09(case: &RawCase, rr: &RawRun, an: &Analysed, out: &mut Outcome) {
